@@ -183,6 +183,11 @@ def e2e_compare(case, outs):
             continue
         if a.get('graph_ok') and a.get('call_ok'):
             inst += 1
+        # CM.C02.node_compile_ok: a well-formed bag with simple edges compiles to a graph that passes the executable check
+        if a.get('compile_hyp'):
+            case['compile_ok_instances'] = case.get('compile_ok_instances', 0) + 1
+            if not a.get('okB'):
+                bad.append({'field': name, 'what': 'theorem node_compile_ok contradicted: Graph.okB is false for the compiled graph'})
         # CM.C02.node_pipeline_value: where its hypotheses hold (evaluated by the driver) the value of the node's term under the
         # specification is what the REAL compiled function returned
         if a.get('pipeline_hyp') and a.get('predicted') is not None and 'value' in f:
@@ -197,7 +202,7 @@ def e2e_compare(case, outs):
 def run_e2e_shard(args):
     seed, n = args
     cases = [c for c in (e2e_case(seed * 5231 + i) for i in range(n)) if c is not None]
-    stats = {'pipelines': len(cases), 'fields': 0, 'values_equal': 0, 'vm_theorem_instances': 0, 'pipeline_value_instances': 0}
+    stats = {'pipelines': len(cases), 'fields': 0, 'values_equal': 0, 'vm_theorem_instances': 0, 'pipeline_value_instances': 0, 'compile_ok_instances': 0}
     bad = []
     for c in cases:
         ans = driver.run_lines([{'op': 'bag', 'steps': c['steps']}])[0]
@@ -209,6 +214,7 @@ def run_e2e_shard(args):
         stats['values_equal'] += ok
         stats['vm_theorem_instances'] += inst
         stats['pipeline_value_instances'] += c.get('pipeline_instances', 0)
+        stats['compile_ok_instances'] += c.get('compile_ok_instances', 0)
         if d:
             bad.append({'stack': c['stack'], 'diff': json.loads(json.dumps(d[:3], default=str))})
     return stats, bad
